@@ -67,7 +67,7 @@ Subj(k, a, b) == [k |-> k, a |-> a, b |-> b]      \* node: a = node id; cat: a =
 SubjLists == {Null, List(<<>>)} \cup {List(<<Subj("node", n, 0)>>) : n \in Nodes}
              \cup {List(<<Subj("cat", c.id, c.ver)>>) : c \in Cats}
              \cup {List(<<Subj("node", 12, 0), Subj("cat", 2, 1)>>), List(<<Subj("grp", 7, 0)>>), List(<<Subj("grp", 8, 0)>>)}
-Tgts == ([ep : {Wild, 0, 1}, cl : {Wild, 6}, dt : {Wild, 256}]) \ {[ep |-> Wild, cl |-> Wild, dt |-> Wild]}
+Tgts == ([ep : {Wild, 0, 1}, cl : {Wild, 6}, dt : {Wild, 256, 65792}]) \ {[ep |-> Wild, cl |-> Wild, dt |-> Wild]}
 TgtLists == {Null, List(<<>>)} \cup {List(<<t>>) : t \in Tgts} \cup {List(<<[ep |-> 0, cl |-> Wild, dt |-> Wild], [ep |-> Wild, cl |-> 8, dt |-> Wild]>>)}
 Entries == [priv : Privs, auth : {"CASE", "Group"}, subj : SubjLists, tgt : TgtLists]
 AclLists == {<<>>} \cup {<<e>> : e \in Entries}
